@@ -297,6 +297,23 @@ def hexstrings(res, dbl):
             "0x1.00000000000008p0", "0x1.00000000000018p0", "0x1.fffffffffffff8p0", "0x123456789abcdef.123p-4", "0x1_0p0", "0x1p+3", "0x1p 3", "+0x1p0", "0x1.8", "1.8", "0x1e5", "0x1.0p0x"]
     for _ in range(2000):
         out.append("0x%x.%xp%d" % (rng.randrange(16), rng.getrandbits(rng.choice([4, 20, 52, 60])), rng.randint(-1100, 1030)))
+    # the whole fromhex grammar, every combination of optional parts (short mantissas: no rounding involved)
+    for sign in ("", "+", "-"):
+        for prefix in ("", "0x", "0X"):
+            for ip in ("", "0", "1", "a", "10", "1F"):
+                for dot in ("", "."):
+                    for fp in ("", "0", "8", "aBc"):
+                        if fp and not dot:
+                            continue
+                        for ex in ("", "p0", "p+1", "P-2", "p10", "p"):
+                            body = sign + prefix + ip + dot + fp + ex
+                            out.append(body)
+                            if rng.random() < .15:
+                                out.append(rng.choice([" ", "\t", "\n ", ""]) + body + rng.choice([" ", "\n", "\r\n", " \t"]))
+    for name in ("inf", "infinity", "nan", "INF", "Infinity", "NaN", "infinit", "nan0", "in"):
+        for sign in ("", "+", "-", "--"):
+            out.append(sign + name)
+            out.append(" " + sign + name + "\n")
     seen = set()
     return [s for s in out if not (s in seen or seen.add(s))]
 
